@@ -314,7 +314,13 @@ def templ_generate(path, extra=None):
     cmd = [templ_bin(), "generate", "-include-version=false"] + (extra or [])
     env = goenv()
     env.pop("TEMPL_DEV_MODE", None)
-    return run(cmd, cwd=path, env=env)
+    p = run(cmd, cwd=path, env=env, check=False)
+    if p.returncode != 0:
+        # warnings ("(!) ... deprecated") can flood the output: keep the error lines, all of them
+        out = (p.stdout or b"").decode(errors="replace") + "\n" + (p.stderr or b"").decode(errors="replace")
+        lines = [l for l in out.splitlines() if l.strip() and not l.startswith("(!)")]
+        raise InfraError("command failed (rc=%d): %s\n%s" % (p.returncode, " ".join(cmd), "\n".join(lines)[-60000:]))
+    return p
 
 
 def go_build(pkg, out_name, tags=("verif",), race=False, cwd=None):
